@@ -12,6 +12,7 @@ package main
 
 import (
 	"bufio"
+	"bytes"
 	"encoding/json"
 	"errors"
 	"flag"
@@ -22,6 +23,7 @@ import (
 	"net"
 	"net/http"
 	"os"
+	"os/exec"
 	"path/filepath"
 	"runtime"
 	"strings"
@@ -348,6 +350,14 @@ func runCase(kind string, b behaviour) (viol [][3]string, toolErr error) {
 	return viol, nil
 }
 
+func lastLines(s string, n int) string {
+	l := strings.Split(strings.TrimSpace(s), "\n")
+	if len(l) > n {
+		l = l[len(l)-n:]
+	}
+	return strings.Join(l, " | ")
+}
+
 func main() {
 	prop := flag.String("property", "C14", "C14 or C18: which property's violations to report")
 	merge := flag.String("merge", "", "evidence file (written by the gosim check) to add the native coverage to")
@@ -355,6 +365,7 @@ func main() {
 	replay := flag.String("replay", "", "replay one case from a file written by this program")
 	known := flag.String("known", "", "known-findings file")
 	_ = flag.String("tier", "quick", "ignored: the native cases are the same in both tiers")
+	one := flag.String("one", "", "(internal) run this single case in this process")
 	flag.Parse()
 	log.SetOutput(io.Discard) // the library logs every failed handshake
 	knownSigs := map[string]string{}
@@ -365,6 +376,27 @@ func main() {
 				knownSigs[strings.TrimPrefix(f[2], "sig=")] = strings.Join(f[3:], " ")
 			}
 		}
+	}
+	if *one != "" {
+		// child mode: run one case in this process and print its violations
+		for _, kind := range []string{"tcp", "ws"} {
+			for _, b := range behaviours() {
+				if kind+"/"+b.name != *one {
+					continue
+				}
+				viol, terr := runCase(kind, b)
+				if terr != nil {
+					fmt.Fprintf(os.Stderr, "TOOL-ERROR: native case %s: %v\n", *one, terr)
+					os.Exit(3)
+				}
+				for _, v := range viol {
+					fmt.Printf("V\t%s\t%s\t%s\n", v[0], v[1], strings.ReplaceAll(v[2], "\n", " "))
+				}
+				os.Exit(0)
+			}
+		}
+		fmt.Fprintln(os.Stderr, "TOOL-ERROR: unknown native case", *one)
+		os.Exit(3)
 	}
 	only := ""
 	if *replay != "" {
@@ -389,10 +421,31 @@ func main() {
 				continue
 			}
 			cases = append(cases, name)
-			viol, terr := runCase(kind, b)
-			if terr != nil {
-				fmt.Fprintf(os.Stderr, "TOOL-ERROR: native case %s: %v\n", name, terr)
-				os.Exit(2)
+			// every case runs in a process of its own: a panic inside the library's serving
+			// goroutines takes the process down and must be reported, not suffered
+			var viol [][3]string
+			cmd := exec.Command(os.Args[0], "--property", *prop, "--one", name)
+			var stdout, stderr bytes.Buffer
+			cmd.Stdout, cmd.Stderr = &stdout, &stderr
+			err := cmd.Run()
+			for _, l := range strings.Split(stdout.String(), "\n") {
+				if f := strings.SplitN(l, "\t", 4); len(f) == 4 && f[0] == "V" {
+					viol = append(viol, [3]string{f[1], f[2], f[3]})
+				}
+			}
+			if err != nil {
+				first := ""
+				for _, l := range strings.Split(stderr.String(), "\n") {
+					if strings.HasPrefix(l, "panic:") || strings.HasPrefix(l, "fatal error:") {
+						first = l
+						break
+					}
+				}
+				if first == "" {
+					fmt.Fprintf(os.Stderr, "TOOL-ERROR: native case %s: %v: %s\n", name, err, lastLines(stderr.String(), 5))
+					os.Exit(2)
+				}
+				viol = append(viol, [3]string{*prop, "native:process-crash:" + name, fmt.Sprintf("real %s listener, client behaviour %q: the serving process died: %s", kind, b.name, first)})
 			}
 			for _, v := range viol {
 				if v[0] != *prop {
